@@ -281,3 +281,70 @@ class _:
         got = expand(ttb, R, case["op"])
         if not same(got, exp):
             raise Fail(f"value:{case['op']}", f"expected {exp.tolist()} got {got.tolist()} for {case}")
+
+
+@check("c03.after_mutation", ["C03", "C06", "C04"], [
+    "pyttb.sptensor.sptensor.__eq__", "pyttb.sptensor.sptensor.__ne__", "pyttb.sptensor.sptensor._compare",
+    "pyttb.sptensor.sptensor.logical_not", "pyttb.sptensor.sptensor.__truediv__", "pyttb.sptensor.sptensor.allsubs",
+    "pyttb.sptensor.sptensor.__setitem__"])
+class _:
+    """Operators applied to an operand that was used before and then changed in place (an entry set, an entry zeroed,
+    the tensor grown by an assignment outside its extent): the result must describe the operand as it is now."""
+
+    def cases(self, tier, rng):
+        shapes = [(2, 2), (2, 1, 2), (3,)] if tier == "quick" else [(2, 2), (2, 1, 2), (3,), (2, 3), (2, 2, 2)]
+        for shp in shapes:
+            for pa in patterns(shp, rng, 3 if tier == "quick" else 6):
+                for change in ("grow", "set-inside", "grow-then-set"):
+                    yield dict(shape=list(shp), asubs=[list(s) for s in pa], avals=_vals_for(pa, rng), change=change, seed=rng.randrange(10**6))
+
+    def classify(self, case):
+        return case["change"]
+
+    def run(self, case):
+        ttb = import_pyttb()
+        shp = tuple(case["shape"])
+        N = len(shp)
+        rs = np.random.RandomState(case["seed"])
+        A = mk_sptensor(ttb, shp, case["asubs"], case["avals"])
+        da = np.zeros(shp)
+        for s, v in zip(case["asubs"], case["avals"]):
+            da[tuple(s)] = v
+        ops = {k: BIN_OPS[k] for k in ("eq", "ne", "lt", "le", "gt", "ge", "div", "and", "or", "xor", "add", "sub", "mul")}
+        un = {k: UNARY[k] for k in ("not", "ones", "neg", "full", "add1", "rdiv")}
+
+        def sweep(A, da, stage):
+            B = ttb.tensor(np.where(rs.rand(*da.shape) < 0.5, 1.0, 0.0)).to_sptensor()
+            db = np.zeros(da.shape)
+            if B.nnz:
+                db[tuple(B.subs.T)] = B.vals.ravel()
+            for nm, (f, g) in ops.items():
+                for rhs_nm, rhs, drhs in (("scalar0", 0, 0), ("scalar1", 1, 1), ("sparse", B, db), ("self", A, da)):
+                    with np.errstate(all="ignore"):
+                        exp = np.asarray(g(da, drhs), dtype=float)
+                        got = expand(ttb, f(A, rhs), f"{nm}({rhs_nm})")
+                    if not same(got, exp):
+                        raise Fail(f"{stage}:{nm}:{rhs_nm}", f"{case}: expected {exp.tolist()} got {got.tolist()}")
+            for nm, (f, g) in un.items():
+                with np.errstate(all="ignore"):
+                    exp = np.asarray(g(da), dtype=float)
+                    got = expand(ttb, f(A), nm)
+                if not same(got, exp):
+                    raise Fail(f"{stage}:{nm}", f"{case}: expected {exp.tolist()} got {got.tolist()}")
+        sweep(A, da, "fresh")
+        if "grow" in case["change"]:
+            key = tuple(d for d in shp[:-1]) + (shp[-1] + 1,)       # one past the extent in every mode but the last, two in the last
+            key = tuple(k if m == N - 1 else shp[m] - 1 for m, k in enumerate(key))
+            A[key] = 5.0
+            new = tuple(max(d, k + 1) for d, k in zip(shp, key))
+            db_ = np.zeros(new)
+            db_[tuple(slice(0, d) for d in shp)] = da
+            db_[key] = 5.0
+            da = db_
+            if tuple(A.shape) != new:
+                raise Fail("harness-or-growth", f"{case}: shape {A.shape} after assignment at {key}")
+        if "set" in case["change"]:
+            k0 = (0,) * N
+            A[k0] = 0.0 if da[k0] != 0 else -3.0
+            da[k0] = 0.0 if da[k0] != 0 else -3.0
+        sweep(A, da, "after-" + case["change"])
